@@ -49,17 +49,17 @@ var stubCommon = []string{"user components, post-processors, runners, closers, l
 func props() map[string]*propCfg {
 	wire := []famShare{{gen.FamWire, 1}}
 	m := map[string]*propCfg{
-		"C01": {ID: "C01", Engine: "startsim", Level: "exploration", Families: []famShare{{gen.FamWire, 0.5}, {gen.FamSubst, 0.5}}, QProgs: 320, QK: 8, TProgs: 640, TK: 16,
+		"C01": {ID: "C01", Engine: "startsim", Level: "exploration", Families: []famShare{{gen.FamWire, 0.5}, {gen.FamSubst, 0.5}}, QProgs: 320, QK: 8, TProgs: 480, TK: 48,
 			Rule: "programs are generated from VERIF_SEED (dependency graphs with fan-in, cycles, slices, by-name/qualified edges; half of them with substituting post-processors); each is started under K schedules (canonical, reversed, random registration order x registry enumeration orders x property-group order x scan-phase interleaving). A run is non-trivial if some object is held by >= 2 points or an early reference was produced (a cycle was entered); distinct = distinct (program shape, registry path signature) pairs among those."},
-		"C02": {ID: "C02", Engine: "startsim", Level: "exploration", Families: wire, QProgs: 400, QK: 8, TProgs: 640, TK: 16,
+		"C02": {ID: "C02", Engine: "startsim", Level: "exploration", Families: wire, QProgs: 400, QK: 8, TProgs: 480, TK: 48,
 			Rule: "generated dependency graphs without substitution (structured corpora first: all digraphs over <= 3 pointer-wired components, ring rotations; then random graphs); K schedules each. Non-trivial = an early reference was produced (a cycle was entered) or the program has a point whose only candidate is its holder; distinct = distinct (program shape, registry path signature)."},
-		"C06": {ID: "C06", Engine: "startsim", Level: "exploration", Families: wire, QProgs: 400, QK: 8, TProgs: 640, TK: 16,
+		"C06": {ID: "C06", Engine: "startsim", Level: "exploration", Families: wire, QProgs: 400, QK: 8, TProgs: 480, TK: 48,
 			Rule: "generated provider/consumer populations; K schedules each; non-trivial = some point has >= 2 compatible candidates; distinct = distinct (program shape, registry path signature)."},
-		"C07": {ID: "C07", Engine: "startsim", Level: "exploration", Families: []famShare{{gen.FamByName, 0.6}, {gen.FamWire, 0.4}}, QProgs: 400, QK: 8, TProgs: 640, TK: 16,
+		"C07": {ID: "C07", Engine: "startsim", Level: "exploration", Families: []famShare{{gen.FamByName, 0.6}, {gen.FamWire, 0.4}}, QProgs: 400, QK: 8, TProgs: 480, TK: 48,
 			Rule: "generated programs with by-name points (custom names, default names, absent names, names of incompatible type, optional and required, rare duplicate registrations); K schedules each; non-trivial = the program has a by-name point; distinct = distinct (program shape, registry path signature)."},
-		"C08": {ID: "C08", Engine: "startsim", Level: "exploration", Families: wire, QProgs: 400, QK: 8, TProgs: 640, TK: 16,
+		"C08": {ID: "C08", Engine: "startsim", Level: "exploration", Families: wire, QProgs: 400, QK: 8, TProgs: 480, TK: 48,
 			Rule: "generated populations with qualifier / Primary / naming attributes and holders mixing qualified, unqualified, optional and required points; K schedules each; non-trivial = some point has >= 2 candidates; distinct = distinct (program shape, registry path signature)."},
-		"C10": {ID: "C10", Engine: "startsim", Level: "exploration", Families: []famShare{{gen.FamWire, 0.7}, {gen.FamSubst, 0.3}}, QProgs: 320, QK: 10, TProgs: 480, TK: 24,
+		"C10": {ID: "C10", Engine: "startsim", Level: "exploration", Families: []famShare{{gen.FamWire, 0.7}, {gen.FamSubst, 0.3}}, QProgs: 320, QK: 10, TProgs: 480, TK: 48,
 			Rule: "each generated program is started under K schedules and the outcomes / wirings are compared across the sweep (metamorphic); non-trivial = some point has >= 2 candidates; distinct = distinct (program shape, registry path signature)."},
 	}
 	for _, p := range m {
@@ -506,14 +506,46 @@ func cmdCheck(id, tier string, seed uint64) int {
 		phases = []phase{{"racesim", true, false, true}, {"linsim", false, true, false}}
 	}
 	yieldPoints := 0
-batches:
-	for batchNo := 0; ; batchNo++ {
-		for phi, ph := range phases {
+	// thorough tier, single-phase engines: the next batch is generated and compiled while the
+	// workers run the current one (compilation, not simulation, is the bottleneck)
+	type built struct {
+		b   *batch
+		err error
+	}
+	var prefetch chan built
+	startBuild := func(batchNo int, ph phase) chan built {
+		ch := make(chan built, 1)
+		go func() {
 			var progs []*sdl.Program
 			if ph.prog {
 				progs = genBatch(pc, seed, batchNo, nProgs, tier)
 			}
 			b, err := buildBatchX(progs, ph.race, ph.lin, id)
+			ch <- built{b, err}
+		}()
+		return ch
+	}
+	defer func() {
+		if prefetch != nil {
+			if x := <-prefetch; x.b != nil {
+				x.b.cleanup()
+			}
+		}
+	}()
+batches:
+	for batchNo := 0; ; batchNo++ {
+		for phi, ph := range phases {
+			var cur chan built
+			if prefetch != nil && len(phases) == 1 {
+				cur, prefetch = prefetch, nil
+			} else {
+				cur = startBuild(batchNo, ph)
+			}
+			x := <-cur
+			b, err := x.b, x.err
+			if tier == "thorough" && len(phases) == 1 && err == nil && nowS()-t0 < budget-45 {
+				prefetch = startBuild(batchNo+1, ph)
+			}
 			if err != nil {
 				b.cleanup()
 				fmt.Println(err)
